@@ -12,6 +12,40 @@ pub assume_specification<T, F: FnOnce(T) -> bool> [Option::<T>::is_some_and] (o:
     requires o is Some ==> f.requires((o->0,)),
     ensures match o { Some(v) => f.ensures((v,), r), None => !r };
 
+/// elements of `s` whose flag in `keep` is set, in order (model of `retain`)
+pub open spec fn mask_filter<A>(s: Seq<A>, keep: Seq<bool>) -> Seq<A>
+    decreases s.len()
+{
+    if s.len() == 0 || keep.len() != s.len() { Seq::empty() } else {
+        let sub = mask_filter(s.drop_last(), keep.drop_last());
+        if keep.last() { sub.push(s.last()) } else { sub }
+    }
+}
+pub proof fn lemma_mask_all<A>(s: Seq<A>, keep: Seq<bool>)
+    requires keep.len() == s.len(), forall|i: int| 0 <= i < s.len() ==> #[trigger] keep[i],
+    ensures mask_filter(s, keep) =~= s
+    decreases s.len()
+{
+    if s.len() > 0 {
+        lemma_mask_all(s.drop_last(), keep.drop_last());
+        assert(s.drop_last().push(s.last()) =~= s);
+    }
+}
+pub proof fn lemma_mask_remove<A>(s: Seq<A>, keep: Seq<bool>, k: int)
+    requires keep.len() == s.len(), 0 <= k < s.len(), !keep[k], forall|i: int| 0 <= i < s.len() && i != k ==> #[trigger] keep[i],
+    ensures mask_filter(s, keep) =~= s.remove(k)
+    decreases s.len()
+{
+    let last = s.len() - 1;
+    if k == last {
+        lemma_mask_all(s.drop_last(), keep.drop_last());
+        assert(s.remove(k) =~= s.drop_last());
+    } else {
+        lemma_mask_remove(s.drop_last(), keep.drop_last(), k);
+        assert(s.remove(k) =~= s.drop_last().remove(k).push(s.last()));
+    }
+}
+
 // ---- heapless::Vec<T, N> -------------------------------------------------------------
 // Assumed contract on a dependency: a sequence of at most N elements.  `at`/`at_mut`
 // stand for indexing through the iterators that rule X16 turns into index loops;
@@ -64,7 +98,9 @@ impl<T, const N: usize> Vec<T, N> {
     #[verifier::external_body]
     fn retain<F: FnMut(&T) -> bool>(&mut self, f: F)
         requires forall|i: int| 0 <= i < old(self)@.len() ==> f.requires((&#[trigger] old(self)@[i],)),
-        ensures final(self)@ == old(self)@.filter(|x: T| f.ensures((&x,), true)),
+        ensures exists|keep: Seq<bool>| keep.len() == old(self)@.len()
+            && (forall|i: int| 0 <= i < keep.len() ==> f.ensures((&old(self)@[i],), #[trigger] keep[i]))
+            && final(self)@ == mask_filter(old(self)@, keep),
     { unimplemented!() }
 }
 impl<const N: usize> Vec<u16, N> {
@@ -678,12 +714,15 @@ pub open spec fn ctl_first(c: Seq<PendingControl>, a: ControlAction) -> int
 /// representation invariant of Outbound (W1, W2, W4)
 pub open spec fn wf(o: Outbound) -> bool {
     &&& packed_ok(o.buf@.len() as int, o.used as int, o.retained@)
+    &&& o.buf@.len() <= usize::MAX
     &&& o.retained@.len() <= MAX_RETAINED
     &&& o.pending_control@.len() <= MAX_PENDING_CONTROL
     &&& o.pending_release@.len() <= MAX_PENDING_RELEASE
     &&& forall|i: int| 0 <= i < o.retained@.len() ==> (#[trigger] o.retained@[i]).len >= 1 && state_ok(o.retained@[i].state, o.retained@[i].len as int)
     &&& forall|i: int| 0 <= i < o.pending_control@.len() ==> state_ok((#[trigger] o.pending_control@[i]).state, ctl_len(o.pending_control@[i].action))
     &&& forall|i: int| 0 <= i < o.pending_release@.len() ==> state_ok((#[trigger] o.pending_release@[i]).state, REL_LEN)
+    // W8: Sent control entries are dropped at once by flush_control
+    &&& forall|i: int| 0 <= i < o.pending_control@.len() ==> (#[trigger] o.pending_control@[i]).state != SendState::Sent
 }
 
 pub open spec fn has_ret(r: Seq<RetainedPacket>, id: u16) -> bool {
@@ -812,6 +851,8 @@ pub open spec fn same_outbound(a: Outbound, b: Outbound) -> bool {
     &&& a.used == b.used
     &&& a.buf@ == b.buf@
 }
+pub open spec fn cap(o: Outbound) -> usize { o.buf.len() }
+pub proof fn lemma_cap_bound(o: Outbound) ensures bv(o).len() <= usize::MAX { assert(bv(o).len() == cap(o)); }
 pub open spec fn total_len(o: Outbound) -> int { prefix_sum(o.retained@, o.retained@.len() as int) }
 
 pub proof fn lemma_prefix_sum_bound(cap: int, used: int, r: Seq<RetainedPacket>, n: int)
@@ -856,6 +897,28 @@ pub proof fn lemma_remove_packed(buf: Seq<u8>, used: int, r: Seq<RetainedPacket>
         assert(t[i] == r[ii] && t[j] == r[jj]);
     }
 }
+/// k is the arena offset of some retained entry (the position of its fixed-header byte)
+pub open spec fn is_first_byte(r: Seq<RetainedPacket>, k: int) -> bool {
+    exists|i: int| 0 <= i < r.len() && (#[trigger] r[i]).offset == k
+}
+pub proof fn lemma_first_byte_step(r: Seq<RetainedPacket>, n: int)
+    requires 0 <= n < r.len()
+    ensures forall|k: int| is_first_byte(r.subrange(0, n + 1), k) == (is_first_byte(r.subrange(0, n), k) || k == r[n].offset)
+{
+    let a = r.subrange(0, n);
+    let b = r.subrange(0, n + 1);
+    assert forall|k: int| is_first_byte(b, k) == (is_first_byte(a, k) || k == r[n].offset) by {
+        if is_first_byte(a, k) {
+            let i = choose|i: int| 0 <= i < a.len() && (#[trigger] a[i]).offset == k;
+            assert(b[i] == a[i]);
+        }
+        if k == r[n].offset { assert(b[n] == r[n]); }
+        if is_first_byte(b, k) {
+            let i = choose|i: int| 0 <= i < b.len() && (#[trigger] b[i]).offset == k;
+            if i < n { assert(a[i] == b[i]); }
+        }
+    }
+}
 /// a compacted arena: offsets are the prefix sums and `used` is the total
 pub open spec fn compacted(o: Outbound) -> bool {
     &&& forall|i: int| 0 <= i < o.retained@.len() ==> (#[trigger] o.retained@[i]).offset == prefix_sum(o.retained@, i)
@@ -869,6 +932,9 @@ fn new(buf: &'a mut [u8]) -> (r: Self)
         bv(r) == old(buf)@,
         wf(r),
 {
+        proof { assert(buf@.len() == buf.len()); }
+
+
         Self {
             buf,
             used: 0,
@@ -884,6 +950,9 @@ fn clear(&mut self)
         bv(*final(self)) == bv(*old(self)),
         wf(*final(self)),
 {
+        proof { lemma_cap_bound(*self); }
+
+
         self.used = 0;
         self.pending_control.clear();
         self.retained.clear();
@@ -1196,6 +1265,271 @@ fn has_pending_release(&self, packet_id: u16) -> (r: bool)
         r == has_rel(self.pending_release@, packet_id),
 {
         self.pending_release.any_of(|pending| -> (__r: bool) ensures __r == (pending.packet_id == packet_id) { pending.packet_id == packet_id })
+    }
+
+fn mark_retained_dup(&mut self)
+    requires
+        wf(*old(self)),
+    ensures
+        final(self).retained@ == old(self).retained@ && same_queues(*final(self), *old(self)) && final(self).used == old(self).used
+            && bv(*final(self)).len() == bv(*old(self)).len(),
+        forall|k: int| 0 <= k < bv(*old(self)).len() && !is_first_byte(old(self).retained@, k) ==> #[trigger] bv(*final(self))[k] == bv(*old(self))[k],
+        forall|k: int| 0 <= k < bv(*old(self)).len() && is_first_byte(old(self).retained@, k) ==> #[trigger] bv(*final(self))[k] == bv(*old(self))[k] | 8u8,
+        wf(*final(self)),
+{
+        let mut __i1: usize = 0;
+        while __i1 < self.retained.len() 
+            invariant
+                __i1 <= self.retained@.len(),
+                self.retained@ == old(self).retained@,
+                same_queues(*self, *old(self)), self.used == old(self).used,
+                bv(*self).len() == bv(*old(self)).len(),
+                wf(*old(self)),
+                forall|k: int| 0 <= k < bv(*self).len() ==> #[trigger] bv(*self)[k] ==
+                    (if is_first_byte(old(self).retained@.subrange(0, __i1 as int), k) { bv(*old(self))[k] | 8u8 } else { bv(*old(self))[k] }),
+            decreases self.retained@.len() - __i1
+{
+            let entry = self.retained.at(__i1);
+            proof {
+                let r = old(self).retained@;
+                assert(r[__i1 as int].offset + r[__i1 as int].len <= old(self).used);
+                assert(1u8 << 3 == 8u8) by (bit_vector);
+                lemma_first_byte_step(r, __i1 as int);
+            }
+
+            self.buf[entry.offset] |= 1 << 3;
+            proof {
+                let r = old(self).retained@;
+                assert forall|k: int| 0 <= k < bv(*self).len() implies #[trigger] bv(*self)[k] ==
+                    (if is_first_byte(r.subrange(0, __i1 as int + 1), k) { bv(*old(self))[k] | 8u8 } else { bv(*old(self))[k] }) by {
+                    lemma_first_byte_step(r, __i1 as int);
+                }
+            }
+
+            __i1 += 1;
+        }
+    
+        proof { assert(old(self).retained@.subrange(0, old(self).retained@.len() as int) =~= old(self).retained@); }
+
+}
+
+fn retained_packet(&self, offset: usize, len: usize) -> (r: &[u8])
+    requires
+        offset + len <= bv(*self).len() && bv(*self).len() <= usize::MAX,
+    ensures
+        r@ == bv(*self).subrange(offset as int, offset + len),
+{
+        &self.buf[offset..offset + len]
+    }
+
+fn retain_packet(
+        &mut self,
+        packet_id: u16,
+        offset: usize,
+        len: usize,
+    ) -> (r: Result<(), ProtocolError>)
+    requires
+        wf(*old(self)),
+        old(self).used <= offset && offset + len <= bv(*old(self)).len() && len >= 1,
+    ensures
+        old(self).retained@.len() < MAX_RETAINED ==> r is Ok
+            && final(self).retained@ == old(self).retained@.push(RetainedPacket { packet_id, offset, len, state: SendState::Write { written: 0 } })
+            && final(self).used == offset + len,
+        old(self).retained@.len() >= MAX_RETAINED ==> r == Err::<(), ProtocolError>(ProtocolError::InflightMetadataExhausted)
+            && final(self).retained@ == old(self).retained@ && final(self).used == old(self).used,
+        same_queues(*final(self), *old(self)) && bv(*final(self)) == bv(*old(self)),
+        wf(*final(self)),
+{
+        (match self.retained
+            .push(RetainedPacket {
+                packet_id,
+                offset,
+                len,
+                state: SendState::Write { written: 0 },
+            }) { Ok(__v) => Ok(__v), Err(_) => Err(ProtocolError::InflightMetadataExhausted) })?;
+        self.used = self.used.max(offset + len);
+        Ok(())
+    }
+
+fn set_control_written(
+        &mut self,
+        action: ControlAction,
+        written: usize,
+        len: usize,
+    ) -> (r: bool)
+    requires
+        wf(*old(self)),
+        len == ctl_len(action),
+    ensures
+        r == has_ctl(old(self).pending_control@, action),
+        r ==> final(self).pending_control@ == old(self).pending_control@.update(first_ctl(old(self).pending_control@, action),
+                PendingControl { action, state: sw(written, len) }),
+        !r ==> final(self).pending_control@ == old(self).pending_control@,
+        final(self).retained@ == old(self).retained@ && final(self).pending_release@ == old(self).pending_release@
+            && final(self).used == old(self).used && bv(*final(self)) == bv(*old(self)),
+        wf(*final(self)),
+{
+        let __p1 = self.pending_control.position_of(|entry| -> (__r: bool) ensures __r == (entry.action == action) { entry.action == action });
+        if let Some(entry) = (match __p1 { Some(__q) => Some(self.pending_control.at_mut(__q)), None => None })
+        {
+            proof { lemma_first_ctl(old(self).pending_control@, action, __p1->Some_0 as int); }
+
+            entry.state.set_written(written, len);
+            true
+        } else {
+            false
+        }
+    }
+
+fn flush_control(&mut self, action: ControlAction) -> (found: bool)
+    requires
+        wf(*old(self)),
+    ensures
+        found == has_ctl(old(self).pending_control@, action),
+        found ==> final(self).pending_control@ =~= old(self).pending_control@.remove(first_ctl(old(self).pending_control@, action)),
+        !found ==> final(self).pending_control@ =~= old(self).pending_control@,
+        final(self).retained@ == old(self).retained@ && final(self).pending_release@ == old(self).pending_release@
+            && final(self).used == old(self).used && bv(*final(self)) == bv(*old(self)),
+        wf(*final(self)),
+{
+        let __p1 = self.pending_control.position_of(|entry| -> (__r: bool) ensures __r == (entry.action == action) { entry.action == action });
+        let found = if let Some(entry) = (match __p1 { Some(__q) => Some(self.pending_control.at_mut(__q)), None => None })
+        {
+            proof { lemma_first_ctl(old(self).pending_control@, action, __p1->Some_0 as int); }
+
+            entry.state = SendState::Sent;
+            true
+        } else {
+            false
+        };
+        let __f1 = |entry: &PendingControl| -> (__r: bool) ensures __r == (entry.state != SendState::Sent) { entry.state != SendState::Sent };
+        self.pending_control
+            .retain(__f1);
+        proof {
+            let c0 = old(self).pending_control@;
+            if found {
+                let k = first_ctl(c0, action);
+                let c1 = c0.update(k, PendingControl { action: c0[k].action, state: SendState::Sent });
+                let keep = choose|keep: Seq<bool>| keep.len() == c1.len()
+                    && (forall|i: int| 0 <= i < keep.len() ==> __f1.ensures((&c1[i],), #[trigger] keep[i]))
+                    && self.pending_control@ == mask_filter(c1, keep);
+                assert forall|i: int| 0 <= i < c1.len() && i != k implies #[trigger] keep[i] by { assert(c1[i] == c0[i]); }
+                lemma_mask_remove(c1, keep, k);
+            } else {
+                let keep = choose|keep: Seq<bool>| keep.len() == c0.len()
+                    && (forall|i: int| 0 <= i < keep.len() ==> __f1.ensures((&c0[i],), #[trigger] keep[i]))
+                    && self.pending_control@ == mask_filter(c0, keep);
+                lemma_mask_all(c0, keep);
+            }
+        }
+
+        found
+    }
+
+fn set_retained_written(
+        &mut self,
+        packet_id: u16,
+        written: usize,
+        len: usize,
+    ) -> (r: bool)
+    requires
+        wf(*old(self)),
+        has_ret(old(self).retained@, packet_id) ==> len == old(self).retained@[first_ret(old(self).retained@, packet_id)].len,
+    ensures
+        r == has_ret(old(self).retained@, packet_id),
+        r ==> final(self).retained@ == old(self).retained@.update(first_ret(old(self).retained@, packet_id),
+                RetainedPacket { state: sw(written, len), ..old(self).retained@[first_ret(old(self).retained@, packet_id)] }),
+        !r ==> final(self).retained@ == old(self).retained@,
+        same_queues(*final(self), *old(self)) && final(self).used == old(self).used && bv(*final(self)) == bv(*old(self)),
+        wf(*final(self)),
+{
+        let __p1 = self.retained.position_of(|entry| -> (__r: bool) ensures __r == (entry.packet_id == packet_id) { entry.packet_id == packet_id });
+        if let Some(entry) = (match __p1 { Some(__q) => Some(self.retained.at_mut(__q)), None => None })
+        {
+            proof { lemma_first_ret(old(self).retained@, packet_id, __p1->Some_0 as int); }
+
+            entry.state.set_written(written, len);
+            true
+        } else {
+            false
+        }
+    }
+
+fn flush_retained(&mut self, packet_id: u16) -> (r: bool)
+    requires
+        wf(*old(self)),
+    ensures
+        r == has_ret(old(self).retained@, packet_id),
+        r ==> final(self).retained@ == old(self).retained@.update(first_ret(old(self).retained@, packet_id),
+                RetainedPacket { state: SendState::Sent, ..old(self).retained@[first_ret(old(self).retained@, packet_id)] }),
+        !r ==> final(self).retained@ == old(self).retained@,
+        same_queues(*final(self), *old(self)) && final(self).used == old(self).used && bv(*final(self)) == bv(*old(self)),
+        wf(*final(self)),
+{
+        let __p1 = self.retained.position_of(|entry| -> (__r: bool) ensures __r == (entry.packet_id == packet_id) { entry.packet_id == packet_id });
+        if let Some(entry) = (match __p1 { Some(__q) => Some(self.retained.at_mut(__q)), None => None })
+        {
+            proof { lemma_first_ret(old(self).retained@, packet_id, __p1->Some_0 as int); }
+
+            entry.state = SendState::Sent;
+            true
+        } else {
+            false
+        }
+    }
+
+fn set_release_written(
+        &mut self,
+        packet_id: u16,
+        written: usize,
+        len: usize,
+    ) -> (r: bool)
+    requires
+        wf(*old(self)),
+        len == REL_LEN,
+    ensures
+        r == has_rel(old(self).pending_release@, packet_id),
+        r ==> final(self).pending_release@ == old(self).pending_release@.update(first_rel(old(self).pending_release@, packet_id),
+                PendingRelease { state: sw(written, len), ..old(self).pending_release@[first_rel(old(self).pending_release@, packet_id)] }),
+        !r ==> final(self).pending_release@ == old(self).pending_release@,
+        final(self).retained@ == old(self).retained@ && final(self).pending_control@ == old(self).pending_control@
+            && final(self).used == old(self).used && bv(*final(self)) == bv(*old(self)),
+        wf(*final(self)),
+{
+        let __p1 = self.pending_release.position_of(|entry| -> (__r: bool) ensures __r == (entry.packet_id == packet_id) { entry.packet_id == packet_id });
+        if let Some(entry) = (match __p1 { Some(__q) => Some(self.pending_release.at_mut(__q)), None => None })
+        {
+            proof { lemma_first_rel(old(self).pending_release@, packet_id, __p1->Some_0 as int); }
+
+            entry.state.set_written(written, len);
+            true
+        } else {
+            false
+        }
+    }
+
+fn flush_release(&mut self, packet_id: u16) -> (r: bool)
+    requires
+        wf(*old(self)),
+    ensures
+        r == has_rel(old(self).pending_release@, packet_id),
+        r ==> final(self).pending_release@ == old(self).pending_release@.update(first_rel(old(self).pending_release@, packet_id),
+                PendingRelease { state: SendState::Sent, ..old(self).pending_release@[first_rel(old(self).pending_release@, packet_id)] }),
+        !r ==> final(self).pending_release@ == old(self).pending_release@,
+        final(self).retained@ == old(self).retained@ && final(self).pending_control@ == old(self).pending_control@
+            && final(self).used == old(self).used && bv(*final(self)) == bv(*old(self)),
+        wf(*final(self)),
+{
+        let __p1 = self.pending_release.position_of(|entry| -> (__r: bool) ensures __r == (entry.packet_id == packet_id) { entry.packet_id == packet_id });
+        if let Some(entry) = (match __p1 { Some(__q) => Some(self.pending_release.at_mut(__q)), None => None })
+        {
+            proof { lemma_first_rel(old(self).pending_release@, packet_id, __p1->Some_0 as int); }
+
+            entry.state = SendState::Sent;
+            true
+        } else {
+            false
+        }
     }
 }
 
